@@ -667,7 +667,8 @@ AgNextEffect(s, c) ==
 RegisterEffect(s, c) ==
     LET call == s.calls[c]
         n == call.name
-        okRes == [NoRes EXCEPT !.status = 200]
+        \* function name, version and handler of the init request; account id only if the feature was asked for
+        okRes == [NoRes EXCEPT !.status = 200, !.reason = "meta-ok", !.kind = IF call.feat THEN "acct" ELSE ""]
     IN IF n = "" THEN Answer(s, c, Res(403, "Extension.InvalidExtensionName"))
        ELSE IF call.big THEN Answer(s, c, Res(403, "InvalidRequestFormat"))      \* unparsable body
        ELSE IF n \in Agents(s) /\ s.ag[n].kind = "ext"
